@@ -7,7 +7,9 @@ use crate::subject::*;
 use serde_json::{json, Value};
 
 fn sizes() -> Vec<Sz> {
-  let mut v = vec![Sz::N(0), Sz::N(1), Sz::N(2), Sz::Rm(1), Sz::R, Sz::Rp(1), Sz::N(255), Sz::N(256), Sz::N(257)];
+  // (remaining() + k for k up to a little more than the reserved prefix and the header of the cells: a capacity test
+  // that is off by one of those quantities accepts them)
+  let mut v = vec![Sz::N(0), Sz::N(1), Sz::N(2), Sz::Rm(8), Sz::Rm(1), Sz::R, Sz::Rp(1), Sz::Rp(4), Sz::Rp(5), Sz::Rp(6), Sz::Rp(8), Sz::Rp(24), Sz::Rp(32), Sz::Rp(37), Sz::N(255), Sz::N(256), Sz::N(257)];
   for n in [(1u32 << 31) - 1, 1 << 31, (1 << 31) + 1, (1u32 << 16), u32::MAX / 2 + 9] {
     v.push(Sz::N(n));
   }
@@ -63,6 +65,12 @@ pub fn run_grid(run: &Run, tier: Tier, profile: &str, shard: usize, nshards: usi
       c.retries = retries;
       cells.push(c);
     }
+  }
+  // a reserved prefix in front of the data area, both layouts
+  for (fl, unify) in [(Fl::Optimistic, false), (Fl::None, true)] {
+    let mut c = Cfg::new(fl, Backend::Vec, unify, if unify { 256 + 8 } else { 225 + 5 });
+    c.reserved = 5;
+    cells.push(c);
   }
   if thorough {
     for fl in Fl::ALL {
